@@ -196,7 +196,8 @@ PROPS = {
         "suites": ["key", "filter", "levels"],
         "skeleton_funcs": [],
         "trusted_base": COMMON_TB + ["murmur3 is an arbitrary hash family (the harness feeds the real hash values to the model)",
-                                     "floating point sizing of the filter: m > 0 is checked by the harness for n = 1..N, not proved"],
+                                     "floating point sizing of the filter: m > 0 is checked by the harness for n = 1..N, not proved",
+                                     "extract/gotrans.go (DESIGN section 14) regenerates GenFilter.add / contains / build (Filter.Add, Filter.Contains, filter.Build) from /repo on every run; FilterTie.add_eq / contains_eq / build_eq / code_no_false_negative are part of this property's module; a hash function's Write, Sum32, Reset is a pure function of its seed and the key, the bit slice is a list, New's results m and k are parameters"],
         "assumptions": ["m > 0"],
         "explanation": "no false negatives for every hash family, k, m > 0 and entry list; the places where the engine builds filters (flush, compaction, recovery) are fingerprinted and every table's filter is asked for every key of the table after each of them (levels suite)",
     },
